@@ -33,6 +33,9 @@ REACHABLE_RAISES = {
 }
 
 
+LATER_RULES = " Later rules: (R4.i) keyless orderings of tuples that can hold None; (R4.j) operations on other modules for import tracing sit in handlers; (R4.k) constant-index access to regex match lists; (R4.l) contradiction rule for snippet parses; (R4.m) validity oracles are total (SyntaxError, ValueError, RecursionError, MemoryError); (R4.n) program text handed to sympy's parser is fenced for Exception; (R4.o) loosely annotated options are normalised before set algebra; (R4.p) = C17 R17.9; (R4.q) constant-index access to possibly-empty list fields is justified by path facts, the selecting template (sa/shapes.py) or the grammar, three-valued; (R4.r) contradiction rule for computed indexes; (R4.s) operator fields of constructed nodes have the right category; (R4.t) unbound set methods are not applied to frozensets."
+
+
 def check(prog: Program, tier: str) -> Result:
     res = Result(
         "C04",
@@ -56,6 +59,7 @@ def check(prog: Program, tier: str) -> Result:
             "Not decided: general index arithmetic on runtime text, time bounds (regex backtracking), third-party code."),
         rule_text="instances = evaluator sites, yields of rule generators, recursive calls, loops, signal call sites, find/replace template pairs, raise/assert statements",
     )
+    res.explanation += LATER_RULES
     res.trusted_base = ["CPython ast, builtins exception hierarchy", "sa/pathcond.py", "table of while loops confirmed by reading (WHILE_TABLE)",
                         "summary: processing.alter_code changes its input whenever additions or removals are non-empty"]
     ev = Evaluator(prog)
